@@ -3,6 +3,8 @@ CONSTANTS
   F <- F_nocachef
   PreSet <- NoPre
   KindSet <- AllKinds
+  Deep = FALSE
+  RaceSet <- NoRace
 INIT Init
 NEXT Next
 INVARIANTS NoRelayOnHit
